@@ -41,15 +41,85 @@ impl BlockSignature {
         proof { }
 //@end
 }
+// R5 site shims for the two adapter chains of Signature::generate. ASSUMED (A): std `chunks(bs)` cuts consecutive bs-byte
+// pieces (the last may be short), `enumerate` numbers them from 0, `map(..).collect()` keeps the order, rayon's
+// `par_chunks(..).enumerate().map(..).collect()` yields the same vector as the sequential chain. The closure is
+// `BlockSignature::compute(i as u32, chunk)` (contract proved above): index = i truncated to 32 bits.
+// Validated by the `signature_generate` twin on both paths.
+pub open spec fn chunk_sigs(r: Seq<BlockSignature>, data: Seq<u8>, bs: int) -> bool {
+    &&& r.len() == nblocks(data.len() as int, bs)
+    &&& forall|j: int| 0 <= j < r.len() ==> {
+            &&& (#[trigger] r[j]).index as int == j % 0x1_0000_0000
+            &&& r[j].weak_hash == dig(block(data, bs, j))
+            &&& r[j].strong_hash.bytes() == H(block(data, bs, j))
+        }
+}
+#[verifier::external_body]
+pub fn chunk_signatures(data: &Vec<u8>, block_size: usize) -> (r: Vec<BlockSignature>)
+    requires block_size > 0,      // `chunks(0)` panics
+    ensures chunk_sigs(r@, data@, block_size as int)
+{ unimplemented!() }
+#[verifier::external_body]
+pub fn par_chunk_signatures(data: &Vec<u8>, block_size: usize) -> (r: Vec<BlockSignature>)
+    requires block_size > 0,
+    ensures chunk_sigs(r@, data@, block_size as int)
+{ unimplemented!() }
+#[verifier::external_body]
+pub fn usize_div_ceil(a: usize, b: usize) -> (r: usize)      // usize::div_ceil (A)
+    requires b > 0
+    ensures r as int == (if a as int % b as int == 0 { a as int / b as int } else { a as int / b as int + 1 })
+{ unimplemented!() }
+pub proof fn lemma_nblocks(n: int, bs: int)
+    requires n >= 0, bs > 0
+    ensures nblocks(n, bs) == (if n % bs == 0 { n / bs } else { n / bs + 1 }),
+        forall|j: int| 0 <= j < nblocks(n, bs) ==> 0 <= #[trigger] (j * bs) < n,
+        n < 0xFFFF_FFFF * bs ==> nblocks(n, bs) <= 0xFFFF_FFFF,
+{
+    let q = n / bs; let r = n % bs;
+    lemma_fundamental_div_mod(n, bs);
+    assert(n == bs * q + r);
+    if r == 0 {
+        assert(n + bs - 1 == bs * q + (bs - 1));
+        lemma_fundamental_div_mod_converse(n + bs - 1, bs, q, bs - 1);
+    } else {
+        assert(n + bs - 1 == bs * (q + 1) + (r - 1)) by(nonlinear_arith) requires n == bs * q + r;
+        lemma_fundamental_div_mod_converse(n + bs - 1, bs, q + 1, r - 1);
+    }
+    let nb = nblocks(n, bs);
+    assert forall|j: int| 0 <= j < nb implies 0 <= #[trigger] (j * bs) < n by {
+        assert(j * bs >= 0) by(nonlinear_arith) requires j >= 0, bs > 0;
+        if r == 0 { assert(j * bs < n) by(nonlinear_arith) requires j < q, n == bs * q + r, r == 0, bs > 0; }
+        else { assert(j * bs < n) by(nonlinear_arith) requires j <= q, n == bs * q + r, r > 0, bs > 0; }
+    }
+    if n < 0xFFFF_FFFF * bs {
+        assert(q < 0xFFFF_FFFF) by(nonlinear_arith) requires n == bs * q + r, r >= 0, n < 0xFFFF_FFFF * bs, bs > 0;
+    }
+}
 impl Signature {
-    // chunks / par_chunks / enumerate / map / collect + rayon: outside Verus' reach. ASSUMED (A), validated by the
-    // `signature_generate` twin on both the sequential (<= 64 KiB) and the parallel path.
-    #[verifier::external_body]
-    pub fn generate<R: Read>(reader: &mut R, block_size: usize) -> (res: Result<Signature>)
-        requires block_size > 0
-        ensures res is Ok ==> sig_of(res->Ok_0, stream_of(&*old(reader))) && res->Ok_0.block_size == block_size,
-            io_ok() ==> res is Ok,
-    { unimplemented!() }
+//@extract file=src/signature.rs impl="Signature" fn=generate
+//@ret res
+//@requires
+        block_size > 0,
+//@ensures
+        // the block index is a u32: the signature describes the stream when there are fewer than 2^32 blocks
+        res is Ok ==> res->Ok_0.block_size == block_size
+            && (stream_of(&*old(reader)).len() < 0xFFFF_FFFF * (block_size as int) ==> sig_of(res->Ok_0, stream_of(&*old(reader)))),
+        io_ok() ==> res is Ok,
+//@replace /let mut data = Vec::new\(\);/ => let mut data: Vec<u8> = Vec::new();
+//@replace /data\s*\.par_chunks\(block_size\)\s*\.enumerate\(\)\s*\.map\(\|\(i, chunk\)\| \{\s*#\[allow\(clippy::cast_possible_truncation\)\]\s*BlockSignature::compute\(i as u32, chunk\)\s*\}\)\s*\.collect\(\)/ => par_chunk_signatures(&data, block_size)
+//@replace /data\s*\.chunks\(block_size\)\s*\.enumerate\(\)\s*\.map\(\|\(i, chunk\)\| \{\s*#\[allow\(clippy::cast_possible_truncation\)\]\s*BlockSignature::compute\(i as u32, chunk\)\s*\}\)\s*\.collect\(\)/ => chunk_signatures(&data, block_size)
+//@replace /data\.len\(\)\.div_ceil\(block_size\)/ => usize_div_ceil(data.len(), block_size)
+//@at entry
+        let ghost s0 = stream_of(&*reader);
+//@at after /reader\.read_to_end\(&mut data\)\?;/
+        proof { assert(data@ =~= s0); lemma_nblocks(s0.len() as int, block_size as int); }
+//@at before /let expected_blocks =/
+        proof {
+            assert forall|j: int| 0 <= j < blocks@.len() && s0.len() < 0xFFFF_FFFF * (block_size as int) implies (#[trigger] blocks@[j]).index == j by {
+                lemma_small_mod(j as nat, 0x1_0000_0000);
+            }
+        }
+//@end
 }
 #[verifier::external_body]
 pub fn clone_sig(s: &Signature) -> (r: Signature) ensures r == *s { unimplemented!() }   // derived Clone (A)
